@@ -193,6 +193,11 @@ def functional_steps(ctx):
         g = gen.set_cell(g, b_pos, (TY['Beacon'], 0, r.choice([1, 2]), None))
         p, o = gen.rand_pose(r, h, w, edge_bias=0.8)
         held = r.choice([gen.NONE, (TY['Key'], 0, r.choice([1, 2, 4]), None), gen.WALL])
+        aligned = w % 2 == 1 and r.random() < 0.4
+        if aligned:
+            # the view is exactly the grid: same shape, agent on the anchor cell facing FORWARD (nothing to crop, pad or rotate)
+            p, o = (h - 1, w // 2), 0
+            desc['obs'] = {'name': r.choice(['partially_occluded', 'raytracing', 'stochastic_raytracing', 'fully_transparent']), 'area': (-(h - 1), 0, -(w // 2), w // 2)}
         cs = (g, p, o, held)
         try:
             env = comp.build_env(desc)
@@ -201,10 +206,25 @@ def functional_steps(ctx):
         a = r.choice(desc['actions'] + [6, 6, 7])
         debug = r.random() < 0.5
         gvdebug.reset_gv_debug(debug)
+        st = wire.mkstate(cs)
+        if aligned or r.random() < 0.3:
+            # observe first: an observation must lie in the observation space and leave the state where it was -- in the state space
+            with impl.Journal(r.randrange(1 << 30)) as j0:
+                env._rng = j0.own
+                try:
+                    ob = env.functional_observation(st)
+                    if not env.observation_space.contains(ob):
+                        ctx.violation('functional_observation: observation outside the observation space', {'env': desc, 'state': gen.show_state(cs), 'wire_state': cs})
+                except Exception as ex:  # noqa: BLE001
+                    if not (desc['obs']['name'] == 'partially_occluded' and desc['obs']['area'][1] != 0):
+                        ctx.violation(f'functional_observation raised {type(ex).__name__} from a state of the state space', {'env': desc, 'state': gen.show_state(cs), 'wire_state': cs})
+            if not env.state_space.contains(st) or wire.cstate(st) != cs:
+                ctx.violation('observing a state took it out of the state space / changed it', {'env': desc, 'state': gen.show_state(cs), 'after': gen.show_state(wire.cstate(st)), 'wire_state': cs})
+                st = wire.mkstate(cs)
         with impl.Journal(r.randrange(1 << 30)) as j:
             env._rng = j.own
             try:
-                nxt, rwd, done = env.functional_step(wire.mkstate(cs), envs.ACTS[a])
+                nxt, rwd, done = env.functional_step(st, envs.ACTS[a])
                 out = ('ok', (wire.cstate(nxt), rwd, done))
             except Exception as ex:  # noqa: BLE001
                 out = ('err', wire.EXN_NAMES.get(wire.exn_code(ex), type(ex).__name__))
